@@ -573,6 +573,13 @@ static JanetScratch *janet_mem2scratch(void *mem) {
     return s - 1;
 }
 
+#ifdef JANET_VERIF
+/* Verification call-outs (default NULL: no effect). midpoint: called between mark and sweep.
+ * safepoint: consulted at every interpreter safepoint; nonzero forces a collection there. */
+JANET_API void (*janet_verif_gc_midpoint)(void) = NULL;
+JANET_API int (*janet_verif_gc_safepoint)(void) = NULL;
+#endif
+
 /* Run garbage collection */
 void janet_collect(void) {
     uint32_t i;
@@ -599,6 +606,9 @@ void janet_collect(void) {
         janet_mark(x);
     }
     janet_vm.gc_mark_phase = 0;
+#ifdef JANET_VERIF
+    if (janet_verif_gc_midpoint) janet_verif_gc_midpoint();
+#endif
     janet_sweep();
     janet_vm.next_collection = 0;
     janet_free_all_scratch();
